@@ -520,15 +520,17 @@ func (i *Interface) Delete(key string) error {
 	}
 
 	r.Lock()
-	defer r.Unlock()
-
 	before := *r.Meta()
 	i.options.Apply(r)
 	r.Meta().Delete()
+	r.Unlock()
 
 	// Remove the record from the cache, it would be served from there otherwise.
+	// The record may not be locked when updating the cache.
 	i.updateCache(r, false, true, 0)
 
+	r.Lock()
+	defer r.Unlock()
 	return putChanged(db, r, before)
 }
 
